@@ -58,9 +58,10 @@ Theorem C15_panic_stops : forall hs path t1 i sent code t2,
 Proof. exact ref_recovered_stops. Qed.
 
 (* ... and yields 500 whenever nothing had reached the client before (sent = false); otherwise the
-   status already sent stands, and the getters say so.  Needs every WriteHeader code in 100..999. *)
+   status already sent stands, and the getters say so.  Holds for every status code, including the
+   ones net/http rejects by panicking (since repo commit d237067). *)
 Theorem C15_panic_status : forall hs path j sent code,
-  chain_valid hs = true -> In (ERecovered j sent code) (rtrace hs path) ->
+  In (ERecovered j sent code) (rtrace hs path) ->
   exists w, final_w (ref hs path) = Some w /\
     r_wrote (rc w) = true /\ r_code (rc w) = (if sent then code else 500%N) /\
     g_written w = true /\ g_status w = (if sent then code else 500%N).
@@ -68,9 +69,9 @@ Proof. exact ref_recovered_status. Qed.
 
 (* getters: Written <-> something reached the recorder; Written -> Status = recorder code = first
    status written (200 if a body came first); Size = bytes accepted = total bytes written unless the
-   status forbids a body.  Needs every WriteHeader code in 100..999. *)
+   status forbids a body.  Holds for every status code: a WriteHeader the underlying writer
+   rejects by panicking leaves the wrapper untouched (the ghost log `ops` lists the calls that returned). *)
 Theorem C15_getters : forall hs path,
-  chain_valid hs = true ->
   exists w, final_w (ref hs path) = Some w /\
     g_written w = spec_written (ops w) /\
     g_written w = r_wrote (rc w) /\
@@ -83,7 +84,7 @@ Theorem C15_getters : forall hs path,
 Proof. exact ref_getters. Qed.
 
 Theorem C15_getters_exec : forall fuel hs path,
-  (length hs < fuel)%nat -> chain_valid hs = true ->
+  (length hs < fuel)%nat ->
   exists w, final_w (forget (exec fuel hs path)) = Some w /\ getters_spec w.
 Proof. exact exec_getters. Qed.
 
@@ -94,17 +95,14 @@ Theorem C15_status_stands : forall hs path j st sz ab,
   exists w, final_w (ref hs path) = Some w /\ g_written w = true /\ g_status w = st.
 Proof. exact ref_status_stands. Qed.
 
-(* Without the hypothesis on status codes both statements are FALSE of the code as written:
-   WriteHeader(1000) under the recovery middleware latches status/written in the wrapper, panics in
-   net/http before anything is sent, and the recovery's 500 is then swallowed by the latched wrapper:
-   the client receives 200 + "Internal Server Error", Status() says 1000. *)
-Theorem C15_getters_refuted : exists hs path c,
-  ref hs path = Done c /\ g_written (c_w c) = true /\ g_status (c_w c) <> r_code (rc (c_w c)).
-Proof. exact getters_refuted. Qed.
-
-Theorem C15_panic_refuted : exists hs path c j code,
-  ref hs path = Done c /\ In (ERecovered j false code) (c_tr c) /\ r_code (rc (c_w c)) <> 500%N.
-Proof. exact recovered_refuted. Qed.
+(* The witness of the repaired defect `invalid-status-latched` (WriteHeader(1000) under recovery used to
+   end as 200 with Status() = 1000): it now yields 500 and the getters agree. *)
+Theorem C15_fixed_invalid_status : exists c,
+  ref [Recovery; User [AWriteHeader 1000]] [] = Done c /\
+  In (ERecovered 0 false 200) (c_tr c) /\
+  g_written (c_w c) = true /\ g_status (c_w c) = 500%N /\
+  r_wrote (rc (c_w c)) = true /\ r_code (rc (c_w c)) = 500%N /\ r_body (rc (c_w c)) = msg500.
+Proof. exact witness_fixed. Qed.
 
 Print Assumptions C15_fuel.
 Print Assumptions C15_refines.
@@ -121,8 +119,7 @@ Print Assumptions C15_panic_status.
 Print Assumptions C15_getters.
 Print Assumptions C15_getters_exec.
 Print Assumptions C15_status_stands.
-Print Assumptions C15_getters_refuted.
-Print Assumptions C15_panic_refuted.
+Print Assumptions C15_fixed_invalid_status.
 
 (* ---------------------------------------------------------------- non-vacuity *)
 Definition b_ok : list N := [111; 107]%N.
@@ -130,9 +127,6 @@ Definition b_ok : list N := [111; 107]%N.
 (* recovery, a middleware with pre- and post-Next code, a handler that writes then panics *)
 Definition ex_chain : list handler :=
   [Recovery; User [ASetH 4 2; ANext; AWrite b_ok]; User [AWriteHeader 201; APanic]; User [AWrite b_ok]].
-
-Example C15_ex_valid : chain_valid ex_chain = true.
-Proof. reflexivity. Qed.
 
 (* the panic is recovered after 201 was sent: 201 stands, handler 3 never runs, the 500 body is appended *)
 Example C15_ex_recovered_after_send :
